@@ -1,13 +1,294 @@
-"""C05 -- placeholder until the check is built"""
+"""C05 -- alignment offsets minimise the squared spread of crossing values"""
+
+import math
+
+from .. import core, curves_corpus, oracle_curves
+
 PROPERTY = 'C05'
 LEVEL = 'exploration'
-SHARDS = {'quick': 1, 'thorough': 1}
-RULE = 'not built yet'
+SHARDS = {'quick': 4, 'thorough': 16}
+RULE = (
+    'Function level: (i) raw head mappings (2-40 series; chain, star, clique and random connected overlap graphs; '
+    'arbitrary crossing values up to 1.7e9; levels crossed by a single series mixed in) handed to the real '
+    'find_offsets, (ii) G-intervals collections of (t, H) series handed to the real get_series_time_offsets.  Oracle '
+    'on every return value: per-series residual sums vanish (1e-9 * scale), objective at the returned point <= '
+    'objective at an independent lstsq solution and at 8 random perturbations, equality with lstsq up to a common '
+    'shift when the normal matrix has rank n-1 (checked).  Dataset level: planted / noisy / long G-series datasets '
+    'through load, classify, set-zeta-grid, rise, recession (function and CLI), curve walker on rising_interval(_zeta), '
+    'recession_interval(_zeta) and on the views average_recession_time / average_rising_depth (recomputed as '
+    'mean(offset + crossing) from the base tables).  Non-trivial: >= 3 intervals and >= 1 level crossed by >= 3 of '
+    'them; distinct by overlap-graph signature / dataset digest.'
+)
+ASSUMPTIONS = [
+    'overlap graphs handed to find_offsets are connected (as get_series_time_offsets guarantees); uniqueness is asserted only when rank = n-1',
+]
+SIZES = {'quick': dict(hm=500, gi=160, ds=60, cli=8), 'thorough': dict(hm=24000, gi=6000, ds=2400, cli=160, field=True)}
+REQUIRED = {
+    tier: {
+        'find_offsets-calls-checked': 200,
+        'get_series_time_offsets-calls-checked': 50,
+        'graph:chain': 20,
+        'graph:star': 20,
+        'graph:clique': 20,
+        'normal-matrix-rank-n-1': 100,
+        'recession-curves-assembled': 20,
+        'rise-curves-assembled': 20,
+        'recession:least-squares-optimality-checked': 20,
+        'rise:least-squares-optimality-checked': 20,
+        'recession:view-levels-checked': 100,
+    }
+    for tier in ('quick', 'thorough')
+}
+MIN_NONTRIVIAL = {'quick': 100, 'thorough': 2000}
+
+
+def gen_head_mapping(rng):
+    n = rng.randint(2, 40) if rng.random() < 0.3 else rng.randint(2, 9)
+    graph = rng.choice(['chain', 'star', 'clique', 'random'])
+    scale = rng.choice([1.0, 3600.0, 1e6, 1.7e9])
+    truth = [rng.uniform(-1, 1) * scale for _ in range(n)]
+    shape = {}
+    level = 0
+    hm = {}
+
+    def add_level(members, noise):
+        nonlocal level
+        base = rng.uniform(-1, 1) * scale
+        hm[level] = [(s, base - truth[s] + rng.gauss(0, 1) * noise) for s in members]
+        level += 1
+
+    noise = rng.choice([0.0, 1e-3, 1.0, 100.0]) * (scale / 1e3 if scale > 1 else 1.0)
+    if graph == 'chain':
+        for i in range(n - 1):
+            for _ in range(rng.randint(1, 3)):
+                add_level([i, i + 1], noise)
+    elif graph == 'star':
+        for i in range(1, n):
+            for _ in range(rng.randint(1, 3)):
+                add_level([0, i], noise)
+    elif graph == 'clique':
+        for _ in range(rng.randint(1, 6)):
+            add_level(list(range(n)), noise)
+    else:
+        # random spanning tree + extra random levels
+        order = list(range(n))
+        rng.shuffle(order)
+        for i in range(1, n):
+            add_level([order[i], order[rng.randrange(i)]], noise)
+        for _ in range(rng.randint(0, 2 * n)):
+            m = rng.randint(2, min(n, 5))
+            add_level(rng.sample(range(n), m), noise)
+    # uninformative levels crossed by one series only
+    for _ in range(rng.randint(0, 4)):
+        add_level([rng.randrange(n)], noise)
+    items = list(hm.items())
+    rng.shuffle(items)
+    ids = list(range(n))
+    if rng.random() < 0.5:
+        # arbitrary (sortable) series identifiers
+        ids = sorted(rng.sample(range(1000), n))
+    hm = {k: [(ids[s], t) for s, t in rng.sample(seq, len(seq))] for k, seq in items}
+    return hm, graph, n
+
+
+def check_offsets(rec, rows, ids, offsets, label, case, rng, module):
+    """rows: (series id, level, crossing) for levels shared by >= 2 series"""
+    got = dict(zip(ids, (float(v) for v in offsets)))
+    used = sorted({s for s, _, _ in rows})
+    if sorted(got) != used:
+        rec.violation(label + '-returns-wrong-set-of-series', {'returned': sorted(got)[:20], 'expected': used[:20]}, case, module)
+        return False
+    by_level = {}
+    for s, k, c in rows:
+        by_level.setdefault(k, []).append(got[s] + c)
+    avg = {k: sum(v) / len(v) for k, v in by_level.items()}
+    per = {}
+    scale = {}
+    for s, k, c in rows:
+        per[s] = per.get(s, 0.0) + (got[s] + c - avg[k])
+        scale[s] = scale.get(s, 1.0) + abs(got[s] + c) + abs(avg[k])
+    worst = max(abs(per[s]) / scale[s] for s in per)
+    rec.note_max(label + ': max relative residual sum', worst)
+    bad = [s for s in per if abs(per[s]) > 1e-9 * scale[s]]
+    ids2, sol, rank = oracle_curves.lstsq_offsets(rows)
+    mine = dict(zip(ids2, sol))
+    f_got = oracle_curves.objective(rows, got)
+    f_mine = oracle_curves.objective(rows, mine)
+    fs = max(f_got, f_mine, 1e-300)
+    sc = max([1.0] + [abs(v) for v in got.values()] + [abs(c) for _, _, c in rows])
+    if rank == len(ids2) - 1:
+        rec.hit('normal-matrix-rank-n-1')
+    if f_got > f_mine * (1 + 1e-9) + (1e-9 * sc) ** 2:
+        rec.violation(label + '-offsets-are-not-the-least-squares-minimiser',
+                      {'objective_returned': f_got, 'objective_lstsq': f_mine, 'n_series': len(ids2)}, case, module)
+        return False
+    if bad:
+        rec.violation(label + '-residuals-of-a-series-do-not-sum-to-zero',
+                      {'series': bad[:5], 'residual': per[bad[0]], 'scale': scale[bad[0]]}, case, module)
+        return False
+    for _ in range(8):
+        pert = {s: got[s] + rng.gauss(0, 1) * 1e-3 * sc for s in got}
+        if oracle_curves.objective(rows, pert) < f_got * (1 - 1e-9) - (1e-9 * sc) ** 2:
+            rec.violation(label + '-a-perturbed-offset-vector-has-a-smaller-objective', {'objective_returned': f_got}, case, module)
+            return False
+    return True
+
+
+def check_find_offsets(ctx, rng, hm, graph, n):
+    import copy
+    import spowtd.fit_offsets as fo
+
+    rec = ctx.rec
+    rec.case()
+    case = {'kind': 'head_mapping', 'head_mapping': {str(k): [[s, t] for s, t in v] for k, v in hm.items()}}
+    arg = copy.deepcopy(hm)
+    try:
+        ids, offsets = fo.find_offsets(arg)
+    except Exception as exc:  # pylint: disable=broad-except
+        desc = core.describe_exception(exc)
+        if desc['origin'] == 'harness':
+            rec.inconclusive_because('harness exception calling find_offsets: {}'.format(desc))
+            return
+        rec.violation('find_offsets-raises:' + desc['type'], {'exception': desc, 'graph': graph}, case, 'head_mapping')
+        return
+    rows = [(s, k, t) for k, seq in hm.items() if len(seq) >= 2 for s, t in seq]
+    rec.hit('graph:' + graph)
+    if float(offsets[list(ids).index(max(ids))]) != 0.0:
+        rec.hit('reference-series-offset-nonzero (allowed: only relative offsets matter)')
+    if check_offsets(rec, rows, list(ids), offsets, 'find_offsets', case, rng, 'head_mapping'):
+        rec.hit('find_offsets-calls-checked')
+    if n >= 3 and any(len(seq) >= 3 for seq in hm.values()):
+        rec.mark_nontrivial(core.digest((graph, n, sorted((k, sorted(s for s, _ in seq)) for k, seq in hm.items()))))
+        rec.sample({'workload': 'find_offsets', 'graph': graph, 'n_series': n, 'n_levels': len(hm),
+                    'first_levels': {str(k): v[:4] for k, v in list(hm.items())[:3]}})
+
+
+def gen_intervals(rng):
+    """Collection of (t, H) series whose level ranges overlap in a chain, so
+    the overlap graph is connected"""
+    import numpy as np
+
+    step = rng.choice([1.0, 0.5, 0.1, 0.3, 2.5])
+    n = rng.randint(2, 12) if rng.random() < 0.8 else rng.randint(12, 60)
+    series = []
+    top = rng.uniform(-50, 50)
+    for _ in range(n):
+        L = rng.randint(3, 25)
+        start = top - rng.uniform(0, 4) * step
+        kind = rng.random()
+        if kind < 0.7:
+            dz = [-rng.uniform(0.3, 1.5) * step for _ in range(L)]
+        else:
+            dz = [rng.uniform(-1.5, 0.5) * step for _ in range(L)]
+            dz[0] = -1.2 * step
+            dz[-1] = -1.2 * step
+        H = np.array([start] + list(start + np.cumsum(dz)))
+        dt = rng.choice([1800.0, 3600.0, 1200.0])
+        t0 = rng.choice([0.0, 1.6e9, rng.uniform(0, 1e6)])
+        series.append((t0 + np.arange(L + 1) * dt, H))
+        # next series starts inside this one's range -> chain overlap
+        top = float(rng.uniform(min(H) + 2.5 * step, max(H) - 0.1 * step)) if max(H) - min(H) > 3 * step else float(max(H))
+    order = list(range(n))
+    rng.shuffle(order)
+    return step, [series[i] for i in order]
+
+
+def check_series_offsets(ctx, rng, step, series):
+    import spowtd.fit_offsets as fo
+
+    rec = ctx.rec
+    rec.case()
+    case = {'kind': 'intervals', 'step': step, 'series': [[list(map(float, t)), list(map(float, H))] for t, H in series]}
+    try:
+        ind, off, mp = fo.get_series_time_offsets([(t.copy(), H.copy()) for t, H in series], step)
+    except Exception as exc:  # pylint: disable=broad-except
+        desc = core.describe_exception(exc)
+        if desc['origin'] == 'harness':
+            rec.inconclusive_because('harness exception calling get_series_time_offsets: {}'.format(desc))
+            return
+        key = 'get_series_time_offsets-raises:' + desc['type']
+        if 'max() iterable argument is empty' in desc['message']:
+            rec.hit('main-body-single-interval (known finding of C08)')
+            return
+        rec.violation(key, {'exception': desc}, case, 'intervals')
+        return
+    rows = [(s, k, float(t)) for k, seq in mp.items() if len(seq) >= 2 for s, t in seq]
+    if not rows:
+        rec.hit('no-shared-level')
+        return
+    if check_offsets(rec, rows, list(ind), off, 'get_series_time_offsets', case, rng, 'intervals'):
+        rec.hit('get_series_time_offsets-calls-checked')
+    if len(ind) >= 3 and any(len(seq) >= 3 for seq in mp.values()):
+        rec.mark_nontrivial(core.digest(('gi', step, len(series), [round(float(H[0]), 3) for _, H in series])))
+
+
+def nontrivial(kind, stats):
+    return bool(stats.get('c05-nontrivial'))
 
 
 def run(ctx):
-    ctx.rec.inconclusive_because('check not built yet')
+    import numpy as np
+
+    s = SIZES[ctx.tier]
+    rng = ctx.rng('head-mappings')
+    for _ in range(ctx.share(s['hm'])):
+        hm, graph, n = gen_head_mapping(rng)
+        check_find_offsets(ctx, rng, hm, graph, n)
+    rng = ctx.rng('intervals')
+    for _ in range(ctx.share(s['gi'])):
+        step, series = gen_intervals(rng)
+        check_series_offsets(ctx, rng, step, series)
+    rng = ctx.rng('datasets')
+    n = ctx.share(s['ds'])
+    ncli = ctx.share(s['cli'])
+    for i in range(n):
+        case = curves_corpus.make_case(rng, i)
+        curves_corpus.run_dataset(ctx, PROPERTY, case, 'cli' if i < ncli else 'function', i, nontrivial=nontrivial)
+    if s.get('field'):
+        run_field(ctx)
+
+
+def run_field(ctx):
+    """Field datasets x grid steps (thorough): one combination per shard slot"""
+    import spowtd.classify as cl
+    import spowtd.zeta_grid as zg
+    from .. import classify_common, curves_common
+
+    combos = [(sample, gs) for sample in (1, 2) for gs in (1.0, 0.5, 2.5, 0.3)]
+    for k, (sample, gs) in enumerate(combos):
+        if k % ctx.nshards != ctx.shard:
+            continue
+        ctx.rec.case()
+        connection = classify_common.load_field(sample)
+        cl.classify_intervals(connection, 8.0, 5.0)
+        zg.populate_zeta_grid(connection, gs)
+        connection.commit()
+        case = {'kind': 'field', 'sample': sample, 'grid_step': gs}
+        for kind in ('rise', 'recession'):
+            exc = curves_common.run_curve(connection, kind)
+            if exc is not None:
+                ctx.rec.inconclusive_because('field data: {} raised {}'.format(kind, core.describe_exception(exc)))
+                continue
+            findings, stats = oracle_curves.walk_curve(connection, kind, None, ctx.rng('field', k))
+            ctx.rec.hit('field:' + kind + '-curves-walked')
+            for p, key, w in findings:
+                if p == PROPERTY:
+                    ctx.rec.violation(key, w, case, 'field')
+            if stats.get('c05-nontrivial'):
+                ctx.rec.mark_nontrivial(core.digest(('field', sample, gs, kind)))
+        connection.close()
 
 
 def replay(ctx, case, module=None):
-    ctx.rec.inconclusive_because('check not built yet')
+    import numpy as np
+
+    rng = core.make_rng('replay')
+    if case.get('kind') == 'head_mapping':
+        hm = {int(k): [(s, t) for s, t in v] for k, v in case['head_mapping'].items()}
+        check_find_offsets(ctx, rng, hm, 'replay', len({s for v in hm.values() for s, _ in v}))
+    elif case.get('kind') == 'intervals':
+        check_series_offsets(ctx, rng, case['step'], [(np.array(t), np.array(H)) for t, H in case['series']])
+    elif case.get('kind') == 'field':
+        ctx.rec.inconclusive_because('field cases are re-run by the thorough tier')
+    else:
+        curves_corpus.run_dataset(ctx, PROPERTY, case, 'function', 0, nontrivial=nontrivial)
